@@ -19,7 +19,7 @@ for p in props:
             'evidence_file': f'/verif/evidence/{pid}.json',
             'replay_cmd_template': f'./check {pid} --replay {{path}}',
             'engine': 'pyvc',
-            'level_claimed': {'category': c.get('category', 'proof'), 'text': c['text'], 'design_ref': c.get('design_ref', f'DESIGN.md section 5 {pid}')},
+            'level_claimed': {'category': c.get('category', 'proof'), 'text': c['text'], 'design_ref': c.get('design_ref', f'DESIGN.md section R.3 (as built) and section 5 {pid} (plan)')},
             'level_note': c['note'],
             'technique': c.get('technique', TECH),
         })
@@ -33,7 +33,8 @@ m = {
               'source_commits': [], 'add_only': True},
     'engines': [
         {'name': 'pyvc', 'path': '/verif/pyvc', 'serves_properties': sorted(CLAIMED), 'kind_free_text': 'VC generator: symbolic execution of the real Python AST under sidecar contracts, obligations discharged by z3 5.1 (cvc5 fallback)'},
-        {'name': 'bounded', 'path': '/verif/bounded', 'serves_properties': sorted(CLAIMED), 'kind_free_text': 'bounded stand-ins / replay on the real code under /venv/bin/python against an independent spec oracle; labelled bounded, never counted as proved'},
+        {'name': 'bounded', 'path': '/verif/bounded', 'serves_properties': sorted(p[:-3] for p in __import__('os').listdir(__import__('os').path.join(__import__('os').path.dirname(__import__('os').path.abspath(__file__)), 'bounded')) if p.endswith('.py')), 'kind_free_text': 'bounded stand-ins (C03 version strings, C12 re-blocker, C19 near-miss floats) on the real code under /venv/bin/python; labelled bounded, never counted as proved'},
+        {'name': 'oracle', 'path': '/verif/oracle', 'serves_properties': sorted(CLAIMED), 'kind_free_text': 'independent spec encoder/decoder and native replay drivers (counter-models of failed obligations are replayed on the real code)'},
     ],
     'checks': checks,
     'not_applicable': na,
